@@ -47,13 +47,13 @@ package ro
 //@ func ShareWithConfig$1$3$4
 //@   note the teardown of one subscriber
 //@   type shareEnv
-//@   props C11 C13
+//@   props C11 C13 C03 C14
 //@   binds sub mu refCount config hasBeenResetOnError hasBeenResetOnCompletion currentSourceSubscription
 //@   inline ShareWithConfig$1$2
 //@   track sub.* currentSourceSubscription.*
-//@   ensures [leaves-the-subject|C11] called(sub.Unsubscribe)
-//@   ensures [uncounts-one-subscriber|C11] atunlock(refCount) == atlock(refCount) - 1
-//@   ensures [last-one-out-releases-upstream|C11] did_load(hasBeenResetOnError) && did_load(hasBeenResetOnCompletion) && config.ResetOnRefCountZero && atlock(refCount) == 1 && loaded(hasBeenResetOnError) == 0 && loaded(hasBeenResetOnCompletion) == 0 ==> called(currentSourceSubscription.Unsubscribe)
+//@   ensures [leaves-the-subject|C11,C03] called(sub.Unsubscribe)
+//@   ensures [uncounts-one-subscriber|C11,C03] atunlock(refCount) == atlock(refCount) - 1
+//@   ensures [last-one-out-releases-upstream|C11,C03,C14] did_load(hasBeenResetOnError) && did_load(hasBeenResetOnCompletion) && config.ResetOnRefCountZero && atlock(refCount) == 1 && loaded(hasBeenResetOnError) == 0 && loaded(hasBeenResetOnCompletion) == 0 ==> called(currentSourceSubscription.Unsubscribe)
 //@   ensures [others-remain-so-upstream-stays|C11] atlock(refCount) != 1 ==> !called(currentSourceSubscription.Unsubscribe)
 //@   ensures [last-one-out-reads-both-flags|C11] config.ResetOnRefCountZero && atlock(refCount) == 1 ==> did_load(hasBeenResetOnError)
 //@   ensures [one-critical-section|C11,C13] count(lock.mu) == 1
